@@ -21,10 +21,10 @@ def make_cmds(rnd, kind, S, params, tier):
     return cmds, names, {"loadopt": opt}
 
 
-from props import gen_iters, gen_hash, gen_hashdict, gen_rpfc, gen_xbw, gen_htfc, gen_dtdict, gen_hashhf
+from props import gen_iters, gen_hash, gen_hashdict, gen_rpfc, gen_xbw, gen_htfc, gen_dtdict, gen_hashhf, gen_hhtfc
 from props.subgen import Sub, Slice
 CFG = DC.Config("C01", D.ALL_KINDS, make_cmds, nsets=(9, 24), big=True,
-                components=[gen_hash, gen_hashdict, gen_rpfc, gen_xbw, Slice(gen_htfc, 5, 0, 3), Slice(gen_hashhf, 3, 0, 2), gen_dtdict, Sub(gen_iters, ["bsbi_samples", "bsbi_index", "blocks"])],
+                components=[gen_hash, gen_hashdict, gen_rpfc, gen_xbw, Slice(gen_htfc, 5, 0, 3), Slice(gen_hashhf, 3, 0, 2), Slice(gen_hhtfc, 8, 0, 3), gen_dtdict, Sub(gen_iters, ["bsbi_samples", "bsbi_index", "blocks"])],
                 rule="all 13 kinds x boundary-directed string sets (n around multiples of the bucket sizes, ladders of proper "
                      "prefixes, shared prefixes and lengths >= 128, single characters, repetitive and dominant-symbol text) x "
                      "build parameters x {fresh, reloaded via generic loader, own loader (thorough)}; every ID 1..n extracted "
